@@ -59,6 +59,7 @@ func clientType(genpkg string, svc *expr.HTTPServiceExpr, seen map[string]struct
 
 	var (
 		initData       []*InitData
+		seenInits      = make(map[string]struct{})
 		validatedTypes []*TypeData
 
 		sections = []*codegen.SectionTemplate{header}
@@ -68,6 +69,16 @@ func clientType(genpkg string, svc *expr.HTTPServiceExpr, seen map[string]struct
 	for _, a := range svc.HTTPEndpoints {
 		adata := data.Endpoint(a.Name())
 		if data := adata.Payload.Request.ClientBody; data != nil {
+			// Constructors are identified by their own name: the name of a
+			// body that is not a user type is just the name of its kind
+			// ("array", "map" ...) and one body type may be built from
+			// different payload types (Body("attr")).
+			if data.Init != nil {
+				if _, ok := seenInits[data.Init.Name]; !ok {
+					seenInits[data.Init.Name] = struct{}{}
+					initData = append(initData, data.Init)
+				}
+			}
 			if _, ok := seen[data.Name]; ok {
 				continue
 			}
@@ -78,9 +89,6 @@ func clientType(genpkg string, svc *expr.HTTPServiceExpr, seen map[string]struct
 					Source: readTemplate("type_decl"),
 					Data:   data,
 				})
-			}
-			if data.Init != nil {
-				initData = append(initData, data.Init)
 			}
 			if data.ValidateDef != "" {
 				validatedTypes = append(validatedTypes, data)
